@@ -176,6 +176,23 @@ def run_case(case, rng):
                 if q > 0:
                     frontier.append(t)
     if ok_walk:
+        # the solution graph is the part of the explicit graph the returned policy reaches: same states as the walk, node
+        # values as in the value map, node actions as in the policy
+        def sg():
+            nodes = res.solution_graph.states_to_nodes
+            bad = []
+            if not seen <= set(nodes):      # (the graph may also hold successors listed with probability 0)
+                bad.append(f"states {sorted(map(repr, seen - set(nodes)))} the policy reaches are missing from the solution graph")
+            for s_, n_ in nodes.items():
+                if s_ in res.state_value_map and abs(n_.value - res.state_value_map[s_]) > tol:
+                    bad.append(f"value[{s_!r}] {n_.value!r} vs map {res.state_value_map[s_]!r}")
+                if s_ in seen and not pinned[arr.si[s_]] and pim[arr.si[s_], arr.ai[n_.optimal_action]] <= 0:
+                    bad.append(f"node action {n_.optimal_action!r} at {s_!r} not in the policy's support")
+            return bad
+        bad_sg = case.call("solution_graph", sg)
+        case.count("solution_graphs_compared")
+        if bad_sg is not case.FAIL:
+            case.check(not bad_sg, "solution_graph-inconsistent-with-policy-or-value-map", lambda: "; ".join(bad_sg[:3]))
         # fill unreached rows with anything available
         for i in range(len(arr.S)):
             if pim[i].sum() == 0:
